@@ -87,6 +87,7 @@ class Tree:
         self.abs = fs.root
         self.pkg = sc["pkg"]
         self.tok_by_real = {}
+        self.real_by_tok = {}
         self.versions = {}     # realpath -> list of tokens that were ever current
         n = 0
         for rel, kind in BASE_FILES:
@@ -98,6 +99,7 @@ class Tree:
             fs.write(rel, tok, 1)
             rp = os.path.realpath(fs.path(rel))
             self.tok_by_real[rp] = tok
+            self.real_by_tok[tok] = rp
             self.versions[rp] = [tok]
         fs.write("pkgs/%s/__init__.py" % self.pkg, "", 1)
         for rel, target, is_dir in BASE_LINKS:
@@ -146,6 +148,17 @@ class Tree:
                 out.add(NF)   # "a.liquid/": pathlib strips the slash, the OS says ENOTDIR - either is fine
             return out
         return {NF}
+
+    def inside(self, tok, bases):
+        """Is the file this token belongs to physically inside one of the configured bases?"""
+        rp = self.real_by_tok.get(tok.split("v")[0])
+        if rp is None:
+            return False
+        for b in bases:
+            rb = os.path.realpath(b)
+            if rp.startswith(rb + os.sep):
+                return True
+        return False
 
     def lexical_link(self, name, bases):
         """True if some prefix of base/name is a symlink (so a link is being followed)."""
@@ -541,18 +554,25 @@ class C22:
                 bump(st, "reach.link_followed")
             return
         # what did we get instead?
-        if tok.startswith("OUT") or (pk and tok.startswith("IN")) or (not pk and tok.startswith("PIN")):
+        if not tree.inside(tok, bases):
             via_link = tree.lexical_link(name, bases)
             add("containment", "outside-content:%s:%s" % ("symlink" if via_link else "lexical", feat),
-                {"op": op, "returned": tok, "permitted": sorted(allowed), "reject_symlinks": reject})
+                {"op": op, "returned": tok, "file": tree.real_by_tok.get(tok.split("v")[0], "?").replace(tree.abs, "@ABS@"),
+                 "permitted": sorted(allowed), "reject_symlinks": reject})
             return
-        if NF in allowed and len(allowed) == 1:
-            add("containment", "spurious-found:%s" % feat, {"op": op, "returned": tok})
+        if feat in ("dotdot", "abs"):
+            # a name the documented contract rejects, answered with a file that IS inside the search
+            # path (e.g. 'sub/../a.liquid'): stricter loaders say not-found, but nothing was read
+            # outside the search directories, so the statement is not violated
+            bump(st, "relaxed.escape_syntax_resolved_inside")
             return
         # a stale version of the right file is fine for a caching loader without (or with failed) reload
         base_tok = tok.split("v")[0]
         if any(a.split("v")[0] == base_tok for a in allowed if a != NF) and (edited or sc["loader"] == "cfs"):
             bump(st, "relaxed.other_version_of_same_file")
+            return
+        if NF in allowed and len(allowed) == 1:
+            add("containment", "spurious-found:%s" % feat, {"op": op, "returned": tok})
             return
         add("containment", "wrong-file:%s" % feat, {"op": op, "returned": tok, "permitted": sorted(allowed)})
 
